@@ -41,6 +41,7 @@ fn hist_profile() -> HistProfile {
         eval: 3,
         observe: 3,
         binds: 0,
+        raw_choose: false,
         max_ops: 12,
     }
 }
